@@ -6,6 +6,7 @@ cd "$(dirname "$0")/.."
 SEEDS=${@:-$(ls seeded | grep -v README)}
 for s in $SEEDS; do
   ids=$(python3 -c "import json;print(' '.join(k for k,v in json.load(open('seeded/$s/meta.json'))['caught_by'].items() if not v.startswith('not')))")
+  if [ "${PRIMARY:-0}" = "1" ]; then ids=$(echo $ids | cut -d' ' -f1); fi
   out=$(tools/try_seed.sh seeded/$s/patch.diff $TIER $ids 2>&1 | grep -E "exit=")
   for i in $ids; do
     if echo "$out" | grep -q "^$i exit=1"; then echo "seed $s: $i CAUGHT"; else echo "seed $s: $i MISSED  ($(echo "$out" | grep "^$i " | cut -c1-80))"; fi
